@@ -104,10 +104,12 @@ func (s *Server) Start() {
 		p.Start()
 		// Start goroutine to cleanup resources on protocol shutdown
 		doneChan := p.DoneChan()
+		// We create our own vars for these channels since they get replaced on restart.
+		// They must be read here and not in the goroutine, which may first run after
+		// a restart has already replaced them
+		requestTxIdsResultChan := s.requestTxIdsResultChan
+		requestTxsResultChan := s.requestTxsResultChan
 		go func() {
-			// We create our own vars for these channels since they get replaced on restart
-			requestTxIdsResultChan := s.requestTxIdsResultChan
-			requestTxsResultChan := s.requestTxsResultChan
 			<-doneChan
 			close(requestTxIdsResultChan)
 			close(requestTxsResultChan)
